@@ -14,6 +14,8 @@ extern "C" {
 #include "xraylib-deprecated.h"
 extern Crystal_Array Crystal_arr;
 xrl_error* xrl_error_new_literal(xrl_error_code code, const char* message);
+xrl_error* xrl_error_new(xrl_error_code code, const char* format, ...);
+#include "xraylib-aux.h"
 void Crystal_F_H_StructureFactor2(Crystal_Struct* crystal, double energy, int i_miller, int j_miller, int k_miller, double debye_factor, double rel_angle, xrlComplex* result, xrl_error** error);
 void Crystal_F_H_StructureFactor_Partial2(Crystal_Struct* crystal, double energy, int i_miller, int j_miller, int k_miller, double debye_factor, double rel_angle, int f0_flag, int f_prime_flag, int f_prime2_flag, xrlComplex* result, xrl_error** error);
 }
@@ -343,6 +345,7 @@ static const char* op_fn_name(const Op& op) {
     case OK_S2A: return "SymbolToAtomicNumber";
     case OK_ERR_COPY: return "xrl_error_copy";
     case OK_ERR_NEW: return "xrl_error_new_literal";
+    case OK_MISC: return op.fn.c_str();
     case OK_ERR_MATCH: return "xrl_error_matches";
     case OK_ERR_PROP: return "xrl_propagate_error";
     case OK_ERR_CLEAR: return "xrl_clear_error";
@@ -535,6 +538,24 @@ void Exec::run_op(const Op& op) {
       int z = SymbolToAtomicNumber(op.snull ? nullptr : op.s.c_str(), ep);
       g.i32(z);
       failed_sentinel = z == 0;
+      break;
+    }
+    case OK_MISC: {
+      if (op.fn == "c_abs") { xrlComplex z = {op.d[0], op.d[1]}; g.dbl(c_abs(z)); }
+      else if (op.fn == "c_mul") { xrlComplex x = {op.d[0], op.d[1]}, y = {op.d[2], op.d[3]}; xrlComplex z = c_mul(x, y); g.dbl(z.re); g.dbl(z.im); }
+      else if (op.fn == "xrl_malloc") {
+        unsigned char* pm = (unsigned char*)xrl_malloc((size_t)op.i[0]);
+        failed_sentinel = !pm;
+        if (pm) { for (int k = 0; k < op.i[0]; k++) pm[k] = (unsigned char)k; g.i32(op.i[0]); xrlFree(pm); }
+      }
+      else if (op.fn == "xrl_strdup") { char* c = xrl_strdup(op.s.c_str()); failed_sentinel = !c; if (c) { g.str(c); xrlFree(c); } }
+      else if (op.fn == "xrl_strndup") { char* c = xrl_strndup(op.s.c_str(), (size_t)op.i[0]); failed_sentinel = !c; if (c) { g.str(c); xrlFree(c); } }
+      else if (op.fn == "xrl_error_new") {
+        xrl_error* c = xrl_error_new((xrl_error_code)(op.i[0] % 6), "%s: %d of %g", op.s.c_str(), op.i[0], op.d[0]);
+        failed_sentinel = !c;
+        if (c) { if (!op_fault_fired()) { g.i32(c->code); g.str(c->message); } xrl_error_free(c); }
+      }
+      else executed = false;
       break;
     }
     case OK_ERR_NEW: {
